@@ -851,6 +851,10 @@ pub struct C17Case {
     /// (end-of-stream before / inside the CONNACK) between the loss and the successful resumption
     #[serde(default)]
     pub failed_attempts: Vec<u8>,
+    /// the resuming connection goes through an AUTH exchange (connect -> AUTH -> authorize ->
+    /// CONNACK)
+    #[serde(default)]
+    pub via_auth: bool,
 }
 
 pub struct C17;
@@ -1033,8 +1037,25 @@ fn run_c17(case: &C17Case, cut: usize, o: &mut Outcome) -> Option<Failure> {
         o.class("failed-reconnection-attempt-before-the-resumption");
     }
     w.tick();
-    w.start_connect(spec2);
-    settle(&mut w, &plan, false);
+    if case.via_auth {
+        spec2.auth_method = Some("m".into());
+        spec2.auth_data = Some(vec![1]);
+        connack2.auth_method = Some("m".into());
+        w.start_connect(spec2);
+        settle(&mut w, &plan, false);
+        w.reader.feed(rc::encode(&rc::Packet::Auth(rc::Auth { reason: 0x18, method: Some("m".into()), data: Some(vec![2]), ..Default::default() }), &rc::Form::canonical()));
+        settle(&mut w, &plan, false);
+        if !matches!(w.conn_results.last(), Some(ConnRes::Auth(_))) {
+            return None; // C13 / C02 judge the handshake
+        }
+        w.tick();
+        w.start_authorize(AuthSpec { reason: Some(0x18), method: Some("m".into()), data: Some(vec![3]), user_props: vec![] });
+        settle(&mut w, &plan, false);
+        o.class("resumed-through-an-auth-exchange");
+    } else {
+        w.start_connect(spec2);
+        settle(&mut w, &plan, false);
+    }
     w.reader.feed(rc::encode(&rc::Packet::Connack(connack2), &rc::Form::canonical()));
     settle(&mut w, &plan, false);
     if !matches!(w.conn_results.last(), Some(ConnRes::Connack(_))) {
@@ -1460,12 +1481,13 @@ impl Property for C17 {
             any::<bool>(),
             prop_oneof![Just(Ago::Now), Just(Ago::HalfExpiry), Just(Ago::LongAfterExpiry)],
         )
-            .prop_map(|(history, expiry, connack_repeats, ago)| C17Case { history, expiry, connack_repeats, ago, queued_during_outage: false, second_outage: 0, failed_attempts: vec![] })
+            .prop_map(|(history, expiry, connack_repeats, ago)| C17Case { history, expiry, connack_repeats, ago, queued_during_outage: false, second_outage: 0, failed_attempts: vec![], via_auth: false })
             .boxed();
         (s, prop::bool::weighted(0.3), prop_oneof![2 => Just(0u16), 1 => 1u16..400], prop_oneof![3 => Just(vec![]), 1 => vec(0u8..4, 1..3)])
             .prop_map(|(mut c, q, so, fa)| {
                 c.queued_during_outage = q;
                 c.second_outage = so;
+                c.via_auth = fa.len() % 2 == 1 || so % 3 == 1;
                 c.failed_attempts = fa;
                 c
             })
